@@ -1,6 +1,8 @@
 SPECIFICATION MSpec
 CONSTANTS
   W = 2
+  Shared = TRUE
+  SigCtx = FALSE
 CONSTRAINT Mark
 POSTCONDITION Accepted
 CHECK_DEADLOCK FALSE
